@@ -1108,6 +1108,10 @@ def gen_threads(seed, params=None):
     rng = random.Random(seed)
     nt = rng.randint(*P['n_threads'])
     dirs = rng.sample(['d', 'd/e', 'g', 'd/e/h', ''], rng.randint(1, 3))
+    if rng.random() < P.get('p_one_dir', 0.0):
+        # every thread works in one new directory chain (the windows between
+        # creating a directory and registering it overlap more often)
+        dirs = [rng.choice(['d', 'd/e', 'd/e/h'])]
     funcs = {
         'Fok': {'kind': 'file', 'name': 'nFok', 'variants': [
             [['q', 'read_text', 'x0', 'METADATA'], ['w', 'once']]]},
@@ -1256,6 +1260,10 @@ def gen_threads(seed, params=None):
         root = [['bf', 'top', 'FT', [], {}, 'METADATA', True]] + post
     else:
         root = [spawn] + post
+    if rng.random() < P.get('p_root_raise', 0.0):
+        # the root function fails after the threads were joined: every build
+        # is rolled back (and starts from the same tree again)
+        root = root + [['raise', 'UserError']]
     roots = [root]
     steps = []
     b1 = {'op': 'build', 'root': 0, 'versions': {}}
